@@ -18,8 +18,17 @@ From Snel Require Import Model.Materialize Proofs.MaterializeProofs.
 Import ListNotations.
 Open Scope N_scope.
 
-(** In a history none of whose operations falls into a known class, a SHOW returns exactly the events the
-    live query selects at that moment, each once. *)
+(** In a state reached through operations none of which falls into a known class, every SHOW returns exactly
+    the events the live query selects at that moment, each once (whatever the arrival order of its own delta). *)
+Theorem C14_show_eq_query_reach : forall st name ch st' out nf m,
+  reach st ->
+  step st (OShow name ch) = (st', ObsShow out nf m) ->
+  exists en, lookup name (st_entries st) = Some en /\
+    Permutation out (sel (n_q en) (st_layout st)) /\ NoDup (map e_k out).
+Proof. exact show_eq_query_reach. Qed.
+Print Assumptions C14_show_eq_query_reach.
+
+(** The same with the SHOW itself outside the classes (the form the history theorem below iterates). *)
 Theorem C14_show_eq_query_core : forall st name ch st' out nf m,
   reach st ->
   classes_of st (OShow name ch) = [] ->
@@ -33,12 +42,24 @@ Print Assumptions C14_show_eq_query_core.
     or below its mark. *)
 Theorem C14_stored_below_mark : forall st, reach st ->
   layout_ok (st_layout st) /\
-  forall name en, lookup name (st_entries st) = Some en ->
+  forall name en, In (name, en) (st_entries st) ->
     core_q (n_q en) /\
     Permutation (concat (n_frames en))
       (filter (below (n_q en) (frames_mark (n_frames en))) (content (st_layout st))).
 Proof. exact reach_inv. Qed.
 Print Assumptions C14_stored_below_mark.
+
+(** The clock condition of the property: if every new event carries a second not below and an id above those of
+    every event already stored (one shard, or a millisecond clock advancing between applied STOREs, and a wall
+    clock that does not step back), no event is late for any remembered query — the class [EventNotAboveMark]
+    cannot occur. *)
+Theorem C14_monotone_clock_suffices : forall st l,
+  Inv st -> zero_id l = false ->
+  (forall e, In e (content l) -> ~ In e (content (st_layout st)) ->
+     forall e0, In e0 (content (st_layout st)) -> e_ts e0 <= e_ts e /\ e_id e0 < e_id e) ->
+  some_late st l = false.
+Proof. exact monotone_clock_not_late. Qed.
+Print Assumptions C14_monotone_clock_suffices.
 
 (** Repeating SHOW with no new data returns the same rows, appends no frame and leaves the mark. *)
 Theorem C14_show_idempotent : forall st name ch1 ch2 st1 out1 nf1 m1 st2 out2 nf2 m2,
@@ -83,6 +104,9 @@ Print Assumptions C14_refuted_PayloadTimeField_hidden.
 Theorem C14_refuted_EventNotAboveMark : witness_of EventNotAboveMark w_same_ms.
 Proof. exact show_eq_query_refuted_same_ms. Qed.
 Print Assumptions C14_refuted_EventNotAboveMark.
+Theorem C14_refuted_EventNotAboveMark_component_max : witness_of EventNotAboveMark w_component_max.
+Proof. exact show_eq_query_refuted_component_max. Qed.
+Print Assumptions C14_refuted_EventNotAboveMark_component_max.
 Theorem C14_refuted_LimitNotReapplied : witness_of LimitNotReapplied w_limit.
 Proof. exact show_eq_query_refuted_limit. Qed.
 Print Assumptions C14_refuted_LimitNotReapplied.
